@@ -229,6 +229,22 @@ def lookupStart : ExportTable → Option Nat
   | [] => none
   | (name, f) :: rest => if Gen.WasiPath.exportNameMatches name then some f else lookupStart rest
 
+/-- The variable `startFunc` of `wasi__threadX2Dspawn` at the entry of a call, given the value the PREVIOUS call of
+    the process (by whichever instance) left in it: an automatic variable starts as NULL in every call, a static
+    one keeps its value.  The storage class is the regenerated `Gen.WasiPath.spawnLookupStorage`. -/
+def lookupEntryValue (prev : Option Nat) : Option Nat :=
+  if Gen.WasiPath.spawnLookupStorage == "static" then prev else none
+
+/-- the start function one call ends up with: the scan over the CALLING instance's table — skipped when the
+    variable is already set and the regenerated loop condition says so; a scan that finds nothing leaves the
+    variable as it was -/
+def lookupCall (prev : Option Nat) (table : ExportTable) : Option Nat :=
+  let cur := lookupEntryValue prev
+  if Gen.WasiPath.spawnLookupSkippedWhenSet && cur.isSome then cur
+  else match lookupStart table with
+    | some f => some f
+    | none => cur
+
 /-- progress of one thread-spawn call -/
 inductive Call where
   | init (arg : Nat)                       -- entered
